@@ -39,11 +39,18 @@ func (f Float) WriteTerm(w io.Writer, opts *WriteOptions, _ *Env) error {
 		_, _ = ew.Write([]byte(")"))
 	}
 
-	if !openClose && opts.right != (operator{}) && (opts.right.name == atomSmallE || opts.right.name == atomE) {
+	if !openClose && opts.right != (operator{}) && startsWithExponentChar(opts.right.name) {
 		_, _ = ew.Write([]byte(" "))
 	}
 
 	return ew.err
+}
+
+// startsWithExponentChar reports whether the text of the atom starts with e or E. Written directly
+// after a float, such an operator (e, e1, e10x, ...) would be taken for the exponent of the float.
+func startsWithExponentChar(a Atom) bool {
+	s := a.String()
+	return len(s) > 0 && (s[0] == 'e' || s[0] == 'E')
 }
 
 // Compare compares the Float with a Term.
